@@ -12,4 +12,10 @@ CHECKS = {
   "note": COMMON_NOTE + "Python dict/defaultdict/deque semantics are modelled, not verified.",
   "technique": "Coq proof by loop invariant over a nondeterministic Kahn model + extracted-model trace inclusion against the implementation",
  },
+ "C02": {
+  "text": "Theorems over the Gallina model of directory_git_object and the Directory validators, for ALL entry lists: order-freedom of the manifest under any permutation (valid sets), equality with git's tree object built by an independently transcribed base_name_compare ordering, strict git-order of the emitted entries, octal mode round trip / no leading zero / the five DentryPerms table, an independent decoder recovering exactly the (mode,name,target) triples, manifest injectivity, and independence of the id from everything but the entry set, for every hash function. The implementation is tied to the model on every run by byte-exact comparison of manifests, ids and validator verdicts on adversarial generated entry sets, with the independent encoder and decoder (extracted from Coq) applied to the implementation's own manifests.",
+  "design_ref": "DESIGN.md section 5, C02",
+  "note": COMMON_NOTE + "Python bytes ordering / sorted / oct are modelled (lib/Order.v, StableSort.v, Hex.v). Agreement of the spec-level tree encoding with real git is validated with `git mktree` in the thorough tier (validation, not proof). SHA-1 itself is uninterpreted in the theorems.",
+  "technique": "Coq proof (sorting/permutation, lexicographic order, decode-encode) over a hand-written model + extracted-model differential correspondence + regenerated tables",
+ },
 }
